@@ -146,7 +146,8 @@ def shape_sig(t):
 # --------------------------------------------------------------------------
 class TypeGen:
     def __init__(self, rng, *, max_depth=3, refs=True, strings=True, dyn=True, orders=True,
-                 max_nd=3, max_fields=4, max_dim=3, scalars=None, prefix=None):
+                 max_nd=3, max_fields=4, max_dim=3, scalars=None, prefix=None, readonly=0.0):
+        self.readonly = readonly
         self.rng = rng
         self.max_depth, self.refs, self.strings, self.dyn = max_depth, refs, strings, dyn
         self.orders, self.max_nd, self.max_fields, self.max_dim = orders, max_nd, max_fields, max_dim
@@ -186,7 +187,13 @@ class TypeGen:
     def g_st(self, depth):
         r = self.rng
         nf = r.randint(1, self.max_fields)
-        return {"k": "st", "n": self.name("S"), "f": [[f"f{i}", self.any(depth - 1)] for i in range(nf)]}
+        fs = [[f"f{i}", self.any(depth - 1)] for i in range(nf)]
+        node = {"k": "st", "n": self.name("S"), "f": fs}
+        if self.readonly:
+            ro = [f[0] for f in fs if f[1]["k"] == "sc" and r.random() < self.readonly]
+            if ro:
+                node["ro"] = ro  # fields declared xo.Field(T, readonly=True)
+        return node
 
     def g_ar(self, depth):
         r = self.rng
@@ -250,7 +257,10 @@ def build(t, cache=None):
     if n in cache:
         return cache[n]
     if k == "st":
-        ns = {fn: build(ft, cache) for fn, ft in t["f"]}
+        ns = {}
+        for fn, ft in t["f"]:
+            ft_ = build(ft, cache)
+            ns[fn] = xo.Field(ft_, readonly=True) if fn in t.get("ro", ()) else ft_
         cls = type(n, (xo.Struct,), ns)
     elif k == "ar":
         it = build(t["it"], cache)
